@@ -488,7 +488,7 @@ def run(ctx):
                 'row, repeated rows, single tuple), short on/off, from a random current index; distinct non-trivial = distinct '
                 '(file, selection, short, start) whose series were compared value by value with stepping')
     rng = ctx.rng('c06')
-    jobs = build_jobs(ctx, rng, ctx.n(6, 60), True, ctx.n(0.25, 1.0))
+    jobs = build_jobs(ctx, rng, ctx.n(6, 250), True, ctx.n(0.25, 1.0))
     results = L.run_jobs('job_c06', jobs, timeout=HISTORY_TIMEOUT, module='props.c06')
     collect(res, results, jobs)
     n = res.stats.get('history-calls', 0)
